@@ -533,6 +533,20 @@ func (w *c13World) build(c *core.Case) (data []byte, desc string) {
 		}
 		msg = append([]byte{byte(core.OneOf(c, "ping.version", 1, 1, 1, 0, 2)), byte(hl)}, hdr...)
 		msg = append(msg, c13PingBody(c, w, pt)...)
+		if base := pingHeaderFor(s.id, 78, pt, 0, false); c.Chance("hdrlen.past-the-end", 1, 8) && len(base) > 0 && base[0] >= 0xa0 && base[0] < 0xb7 && len(base) < 200 {
+			// A well-formed header that fills the message to its last byte and ends
+			// in a byte string (under a key nobody knows) declared a little longer
+			// than what is left; the header length byte says the same. Whatever
+			// follows the message in the frame would complete it.
+			over := core.OneOf(c, "hdrlen.over", 1, 2, 2, 5, 16)
+			have := c.Int("hdrlen.have", 0, 8)
+			h := append([]byte(nil), base...)
+			h[0]++
+			h = append(h, 0x61, 'x', 0x58, byte(have+over))
+			h = append(h, c.Bytes("hdrlen.bytes", have)...)
+			msg = append([]byte{1, byte(len(h) + over)}, h...)
+			pt += "/header-declared-past-the-end-of-the-message"
+		}
 		mt = core.OneOf(c, "ping.mt", frame.RouterPing, frame.RouterPing, frame.RouterCtrl, frame.RouterHopPing, frame.RouterHopPingDeprecated)
 		if pt == "announce" {
 			mt = core.OneOf(c, "ping.mt.ann", frame.RouterHopPingDeprecated, frame.RouterHopPing)
